@@ -235,3 +235,69 @@ def shadow(ctx):
                      '`x.%s(..)` now resolves to the inherent method in every caller' % (sk, n, hit[0][0], n, n), fnkey=sk + '::' + n)
     ctx.check(not bad, 'inherent-vs-trait', None, '%d inherent methods of crate types, none shadows a method of a trait the type implements '
               '(%d listed exceptions)' % (n_inh, len(SHADOW_OK)), '%d inherent methods shadow trait methods' % bad)
+
+
+_W = {'u8': 8, 'u16': 16, 'u32': 32, 'u64': 64, 'u128': 128, 'i8': 8, 'i16': 16, 'i32': 32, 'i64': 64, 'i128': 128}
+
+
+def _int_range(name, as_dest):
+    """(signed, bits); usize/isize are 64 bits as a source and 32 as a destination (the crate builds for both)."""
+    if name in ('usize', 'isize'):
+        return (name[0] == 'i', 32 if as_dest else 64)
+    if name in _W:
+        return (name[0] == 'i', _W[name])
+    return None
+
+
+def _lossless(src, dst):
+    a, b = _int_range(src, False), _int_range(dst, True)
+    if src in ('bool', 'char') or a is None or b is None:
+        return src in ('bool',) or (src == 'char' and dst in ('u32', 'u64', 'u128', 'i64', 'i128'))
+    (ss, sb), (ds, db) = a, b
+    if not ss and not ds:
+        return db >= sb
+    if not ss and ds:
+        return db > sb
+    if ss and ds:
+        return db >= sb
+    return False
+
+
+def _has_float(ty):
+    if not isinstance(ty, dict):
+        return False
+    if ty.get('k') == 'prim' and ty.get('name') in ('f32', 'f64', 'f16', 'f128'):
+        return True
+    return any(_has_float(a) for a in (ty.get('args') or []) + (ty.get('elems') or []) + [ty.get('ty'), ty.get('inner'), ty.get('elem')] if a)
+
+
+@rule('NUM-EXACT', {p: 'counters, identifiers and hashes are exact integers for every value: one that passes through a float or a narrower '
+                       'integer on its way (a decoder, a conversion, a size computation) is changed for large values, and every property '
+                       'quantifies over all of them'
+                    for p in PROPS}, floor=1, family='COVER')
+def num_exact(ctx):
+    """Hand-written code of the crate holds no floating-point value and performs no lossy integer cast."""
+    facts = ctx.facts
+    nb, bad = 0, 0
+    for b in facts.bodies:
+        if b.derived or b.kind == 'Promoted':
+            continue
+        nb += 1
+        fl = sorted(set(l['ty'].get('s', '?') for l in b.locals if _has_float(l.get('ty'))))
+        if fl:
+            bad += 1
+            ctx.fail('float/' + b.key.replace('crdts::', ''), b, '%s holds floating-point values (%s): an integer that passes through them is '
+                     'rounded above 2^53' % (b.key, ', '.join(fl[:3])), fnkey=b.key)
+        for blk in b.blocks:
+            for st in blk['stmts']:
+                rv = st.get('rv') if st.get('k') == 'assign' else None
+                if not isinstance(rv, dict) or rv.get('k') != 'cast' or (st.get('span') or {}).get('exp'):
+                    continue
+                kind, src, dst = rv.get('cast'), (rv.get('from') or {}).get('name'), (rv.get('ty') or {}).get('name')
+                if kind in ('FloatToInt', 'IntToFloat', 'FloatToFloat') or (kind == 'IntToInt' and src and dst and not _lossless(src, dst)):
+                    bad += 1
+                    ctx.fail('cast/%s/%s->%s' % (b.key.replace('crdts::', ''), src, dst), b,
+                             '%s casts %s to %s (%s), which does not preserve every value' % (b.key, src, dst, kind),
+                             line=(st.get('span') or {}).get('line'), fnkey=b.key)
+    ctx.check(not bad, 'casts-floats', None, 'no float value and no lossy numeric cast in %d hand-written bodies' % nb,
+              '%d lossy numeric constructs' % bad)
